@@ -48,6 +48,9 @@ def _history(draw):
         if k in ("add", "mpo_apply"):
             op["bond"] = draw(st.integers(1, 6 if k == "add" else 3))
             op["scale"] = 10.0 ** draw(st.integers(-3, 2))
+            if k == "add" and draw(st.booleans()):
+                # a perturbation of about the truncation threshold: several Schmidt values just below `precision`
+                op["scale"] = ["precision", draw(st.sampled_from([0.7, 1.0, 1.5, 2.5, 4.0]))]
         if k in ("rmul", "imul"):
             op["c"] = [draw(st.floats(-3, 3).map(lambda v: round(v, 4))), draw(st.floats(-3, 3).map(lambda v: round(v, 4)))]
             if abs(op["c"][0]) + abs(op["c"][1]) < 1e-3:
@@ -65,6 +68,7 @@ def _history(draw):
 def _split(draw):
     return {"kind": "split", "rows": draw(st.integers(1, 40)), "cols": draw(st.integers(1, 40)),
             "rank": draw(st.one_of(st.none(), st.integers(1, 12))), "decay": draw(st.sampled_from([0.0, 0.3, 1.0, 3.0])),
+            "cluster": draw(st.one_of(st.none(), st.tuples(st.integers(2, 6), st.sampled_from([0.45, 0.6, 0.75, 0.95])).map(list))),
             "max_error": 10.0 ** draw(st.integers(-12, -1)), "max_rank": draw(st.sampled_from([1, 2, 3, 5, 8, 1024])),
             "right": draw(st.booleans()), "preserve_norm": draw(st.booleans()), "scale": 10.0 ** draw(st.integers(-3, 3)),
             "seed": draw(st.integers(0, 2**20))}
@@ -173,7 +177,10 @@ def check_case(case) -> Result:
             if mps.orthogonality_center != 0:
                 r.fail("truncate_centre_not_0", str(mps.orthogonality_center))
         elif k == "add":
-            other_f = _rand_mps(orng, n, dim, op["bond"], op["scale"])
+            sc = op["scale"] if not isinstance(op["scale"], list) else op["scale"][1] * prec
+            if isinstance(op["scale"], list):
+                r.label("add_near_precision")
+            other_f = _rand_mps(orng, n, dim, op["bond"], sc)
             other = MPS(other_f, precision=prec, max_bond_dim=cap, num_gpus_to_use=0, eigenstates=eig)
             od = tn.mps_to_dense(other.factors)
             res = cut(lambda: mps + other)
@@ -283,6 +290,17 @@ def _check_split(case) -> Result:
         s = s[0] * np.exp(-case["decay"] * np.arange(len(s)))
         m = (u * s) @ vh
     m = m * case["scale"] / max(np.linalg.norm(m), 1e-300)
+    if case.get("cluster"):
+        # designed spectrum: a few large values, then k values each a bit below max_error (their squares add up above it)
+        kk, frac = case["cluster"]
+        u, s, vh = np.linalg.svd(m, full_matrices=False)
+        kk = min(kk, max(len(s) - 1, 0))
+        if kk >= 1:
+            s = s.copy()
+            s[len(s) - kk:] = frac * case["max_error"]
+            s[: len(s) - kk] = np.maximum(s[: len(s) - kk], 10 * case["max_error"])
+            m = (u * s) @ vh
+            r.label("split_cluster_below_threshold")
     l, rr = cut(split_matrix, torch.tensor(m), max_error=case["max_error"], max_rank=case["max_rank"],
                 orth_center_right=case["right"], preserve_norm=case["preserve_norm"])
     l, rr = l.numpy(), rr.numpy()
